@@ -91,7 +91,7 @@ def c15_1(ctx, ss):
         conds = [(txt(flow.expand(e, keep={txt(lp.target)})), pol) for kind, e, pol in guards.path_conditions(lp, stmt_of(ff, c)) if kind == "if" and "link_pos" not in txt(e)]
         kk = ckey(ff, None, f"helper:{c.func.id}")
         plain = "no_subchain" in c.func.id
-        okb = len(conds) == 1 and conds[0][0].startswith("not has_subdecay(") and conds[0][1] == plain
+        okb = len(conds) == 1 and conds[0][0].startswith("has_subdecay(") and conds[0][1] == (not plain)
         (ctx.holds if okb else ctx.violation)("C15.1", kk, where(ff, c),
                                               f"{c.func.id} is used exactly for lines {'without' if plain else 'with'} a decaying daughter" if okb
                                               else f"{c.func.id} is chosen under {conds}")
